@@ -363,7 +363,25 @@ func EventsStr(log []*verifstore.Request) string {
 			if r.Err != "" {
 				fl = "!" + r.Err
 			}
-			out = append(out, "A "+keyStr(r.Key)+" "+fl)
+			// recorded revision and number of controllers (native / annotation) of the object as stored
+			post := ""
+			if r.After != nil {
+				rev := r.After.GetAnnotations()[RevAnn]
+				if rev == "" {
+					rev = "-"
+				} else if _, err := strconv.ParseInt(rev, 10, 64); err != nil {
+					rev = "!"
+				}
+				nc := 0
+				for _, o := range r.After.GetOwnerReferences() {
+					if o.Controller != nil && *o.Controller {
+						nc++
+					}
+				}
+				na := strings.Count(annRefsStr(r.After.GetAnnotations()[OwnersAnn])+",", ":1,")
+				post = fmt.Sprintf(" r=%s c=%d/%d", rev, nc, na)
+			}
+			out = append(out, "A "+keyStr(r.Key)+" "+fl+post)
 		case "merge":
 			fl := "n"
 			if r.Changed {
